@@ -11,6 +11,22 @@ BASE_NOTE = ("Trusted base: rustc front end/MIR construction as dumped by engine
              "crates assumed total. ")
 
 CLAIMS = {
+    "C03": dict(
+        category="other",
+        technique="abstract interpretation of the parse-tree consumers against the grammar's child language (abstract pest API); PEG analysis of the grammar file; lexical class enumeration",
+        text=("Every consumer function of the pest parse tree is abstractly interpreted on every child-sequence alternative the "
+              "grammar can produce for every rule it is called with (1719 runs over 74 function/rule pairs; sub-parsers replaced "
+              "by tagged stand-ins; repetitions unrolled 0/1/2 times): no expect/unwrap/unreachable!/slice site may be able to "
+              "fail, which is exactly the agreement of the grammar with its hand-written consumer. The same runs yield, per rule, "
+              "the AST variant built and the order in which operand children reach its fields. Numeral classes are bounded "
+              "lexically (max value <= target type, two ASCII prefix bytes); mnemonics, header, numeric ranges in three bases "
+              "with leading zeros, the 40-label limit and the coverage and normalisation of the undefined-label scan are decided "
+              "on the grammar file and on MIR."),
+        note=("Not decided: equality of the accepted language with the manual beyond the listed clauses (no independent formal "
+              "grammar exists in the sandbox); panics inside pest itself; repetitions longer than two iterations are covered by "
+              "the uniform treatment of repeated children (filter/map or a loop body independent of the iteration count), "
+              "recorded as an assumption."),
+        design="3/C03"),
     "C14": dict(
         category="other",
         technique="abstract interpretation of the board's methods on interval cells and single flag configurations",
